@@ -382,47 +382,63 @@ func (h *harness) docsFor(c *Case) ([]string, []string) {
 }
 
 func (h *harness) rebuildPart(c *Case, bt *built, s *schema.Schema, data []byte, intro *IntroD) (fails []failure) {
-	s2, err := rebuildSchema(data)
-	if err != nil {
-		return []failure{{Part: "rebuild", Kind: "property", Class: "rebuild-fails", What: "a schema cannot be rebuilt from the introspection result: " + err.Error()}}
+	// the schema is rebuilt from the result as delivered and from the same result with every list of
+	// named members in ascending and in descending name order (list order is arbitrary)
+	type variant struct {
+		order string
+		data  []byte
+		s     *schema.Schema
+	}
+	variants := []*variant{{order: "as delivered", data: data}, {order: "ascending", data: reorderIntro(data, false)}, {order: "descending", data: reorderIntro(data, true)}}
+	for _, v := range variants {
+		s2, err := rebuildSchema(v.data)
+		if err != nil {
+			return []failure{{Part: "rebuild", Kind: "property", Class: "rebuild-fails", What: "a schema cannot be rebuilt from the introspection result (lists " + v.order + "): " + err.Error()}}
+		}
+		v.s = s2
 	}
 	h.count("rebuild:schemas")
 	allF := schema.NewFeatureSet(c.S.allFeatures()...)
 	docs, muts := h.docsFor(c)
-	var restored *schema.Schema
+	restored := map[string]*schema.Schema{}
 	for i, q := range docs {
 		v1 := validate(q, s, allF)
-		v2 := validate(q, s2, nil)
 		h.count("rebuild:doc:" + muts[i] + ":" + v1.V)
 		h.count("rebuild:docs")
-		if v1.V == v2.V {
-			continue
-		}
-		f := failure{Part: "rebuild", Kind: "property", Class: "verdict-differs",
-			What: fmt.Sprintf("document %q: original schema says %s %v, rebuilt schema says %s %v", q, v1.V, firstN(v1.Msgs, 2), v2.V, firstN(v2.Msgs, 2))}
-		// F-10a classifier: with the configured defaults copied onto the rebuilt definition the verdicts agree
-		if restored == nil {
-			if r, err := rebuildSchema(data); err == nil {
-				restoreDefaults(s, r)
-				restored = r
+		for _, vr := range variants {
+			v2 := validate(q, vr.s, nil)
+			if v1.V == v2.V {
+				continue
 			}
-		}
-		if restored != nil && validate(q, restored, nil).V == v1.V && v1.V == "ok" {
-			f.Finding = "F-10a-rebuilt-schema-loses-defaults"
-			f.Class = "verdict-differs-default-lost"
-		}
-		fails = append(fails, f)
-		if len(c.Docs) == 0 {
-			// keep the failing document explicit for shrinking / replay
-			c2 := *c
-			_ = c2
+			f := failure{Part: "rebuild", Kind: "property", Class: "verdict-differs",
+				What: fmt.Sprintf("document %q: original schema says %s %v, schema rebuilt from the introspection result (lists %s) says %s %v", q, v1.V, firstN(v1.Msgs, 2), vr.order, v2.V, firstN(v2.Msgs, 2))}
+			// F-10a classifier (the finding is fixed; a match is reported as a recurrence): with the
+			// configured defaults copied onto the rebuilt definition the verdicts agree
+			if restored[vr.order] == nil {
+				if r, err := rebuildSchema(vr.data); err == nil {
+					restoreDefaults(s, r)
+					restored[vr.order] = r
+				}
+			}
+			if r := restored[vr.order]; r != nil && validate(q, r, nil).V == v1.V && v1.V == "ok" {
+				f.Finding = "F-10a-rebuilt-schema-loses-defaults"
+				f.Class = "verdict-differs-default-lost"
+			}
+			fails = append(fails, f)
+			break
 		}
 	}
 	if h.model != nil && !h.quiet {
-		if f := h.tieRebuild(bt, s, data); f != nil {
-			f.NoInput = unexplained(fails) == 0
-			if f.NoInput {
-				fails = append(fails, *f)
+		// the model's rebuilt definition does not depend on list order: compared with the
+		// implementation's for the result as delivered and for the descending order
+		for _, vr := range []*variant{variants[0], variants[2]} {
+			if f := h.tieRebuild(bt, s, vr.data, vr != variants[0]); f != nil {
+				f.What = "(lists " + vr.order + ") " + f.What
+				f.NoInput = unexplained(fails) == 0
+				if f.NoInput {
+					fails = append(fails, *f)
+				}
+				break
 			}
 		}
 	}
